@@ -395,14 +395,6 @@ def shared_geom(seg):
     return iop, ps, sbs
 
 
-def read_calls(r, seg_type, nseg):
-    """The read variants exercised on a segmentation: list of (label, kwargs, how to compare)."""
-    calls = [('combined', dict(combine_segments=True), 'label')]
-    if seg_type != 'LABELMAP' or True:
-        calls.append(('channels', dict(), 'chan'))
-    return calls
-
-
 def model_store_req(g, n0, included):
     return ('storeStack', {'d': [[rstr(x) for x in _col(g['d'], j)] for j in range(3)], 's': [rstr(x) for x in g['s']],
                            'p': [rstr(x) for x in g['p']], 'n0': n0, 'ks': list(included)})
@@ -734,6 +726,8 @@ def build_img_case(ctx, idx):
     ps = (r.choice(SPACINGS), r.choice(SPACINGS))
     origin = [F(r.randint(-800, 800), 8) for _ in range(3)]
     ori = [float(x) for x in rowcos + colcos]
+    if kind == 'slide':
+        origin[2] = F(0)          # the slide origin sequence of the generator carries X and Y only
     descr = {'stream': 'img', 'idx': idx, 'seed': ctx.seed, 'kind': kind, 'dir': label, 'exact': exact,
              'pixel_spacing': [rstr(x) for x in ps], 'origin': [rstr(x) for x in origin]}
     nprng = ctx.np_rng('imgpix', idx)
@@ -741,7 +735,6 @@ def build_img_case(ctx, idx):
         tr, tc = r.randint(1, 4), r.randint(1, 4)
         total_r, total_c = r.randint(1, 9), r.randint(1, 9)
         full_t = r.random() < 0.5
-        origin[2] = F(0)
         ds, tpm = slide_image(total_r, total_c, tr, tc, tiled_full=full_t, origin=[float(x) for x in origin],
                               pixel_spacing=[float(x) for x in ps], orientation=ori, rng=nprng)
         descr.update(total=[total_r, total_c], tile=[tr, tc], tiled_full=full_t)
